@@ -43,6 +43,7 @@ class Endpoint:
         self.obs = absn.Observer(expect_preface=(role == 'c'))
         self.adv = absn.Adversary()       # the peer's encoder when the peer is the harness
         self.adv_preface_sent = False
+        self.hts_pending = []
         self.upgrade_header = None
 
     # -------------------------------------------------- public calls
@@ -117,7 +118,20 @@ class Endpoint:
     def take_output(self):
         data = self.conn.data_to_send()
         frames = self.obs.feed(data)
+        # the harness peer is a conforming HTTP/2 peer: it remembers the HEADER_TABLE_SIZE carried by each SETTINGS
+        # frame it sees and starts using it when it acknowledges THAT frame (RFC 7540 6.5.3, RFC 7541 4.2)
+        for f in frames:
+            if f.get('t') == 'SET' and not f.get('ack'):
+                v = [val for i, val in f['s'] if i == 1]
+                self.hts_pending.append(absn.u32(v[-1]) if v else None)
         return data, frames
+
+    def adversary_frame(self, f):
+        if f.get('t') == 'SET' and f.get('ack') and self.hts_pending:
+            v = self.hts_pending.pop(0)
+            if v is not None:
+                self.adv.enc.header_table_size = v
+        return self.adv.frame(f)
 
     def queries(self, qsids):
         conn = self.conn
@@ -304,7 +318,7 @@ class Session:
                 data += wire.PREFACE
                 ep.adv_preface_sent = True
             for f in s['fs']:
-                data += ep.adv.frame(f)
+                data += ep.adversary_frame(f)
             return self._receive(x, data)
         if a == 'dlv':
             k = s['k']
